@@ -8,8 +8,10 @@ import (
 	"net"
 	"net/http"
 	"os"
+	"runtime"
 	"sort"
 	"strings"
+	"sync"
 	"sync/atomic"
 	"testing"
 	"testing/synctest"
@@ -68,6 +70,9 @@ type Engine struct {
 	inlineBuf   []*StoreRec
 	closedUse   int
 	closedAddrs []string
+	// hookMu guards what hooks reached from goroutines woken by the same timer instant (two
+	// servers finishing their graceful close) may touch at once
+	hookMu sync.Mutex
 }
 
 var curEngine atomic.Pointer[Engine]
@@ -135,12 +140,21 @@ func (pingTransport) RoundTrip(req *http.Request) (*http.Response, error) {
 
 // RunInBubble executes plan (and, if sched != nil, the recorded schedule) inside
 // a fresh synctest bubble and returns what happened.
+// LeakyBubbles counts the runs whose bubble ended with goroutines still blocked.
+var LeakyBubbles atomic.Int64
+
 func RunInBubble(t *testing.T, plan *Plan, sched []string, arm func(e *Engine)) (out *Outcome) {
 	defer func() {
 		if r := recover(); r != nil {
 			s := fmt.Sprint(r)
 			if out != nil && strings.Contains(s, "deadlock") {
 				// leaked goroutines of abandoned / stuck tasks at the end of the bubble
+				LeakyBubbles.Add(1)
+				if os.Getenv("VSIM_DUMP_LEAK") != "" && LeakyBubbles.Load() <= 3 {
+					buf := make([]byte, 1<<20)
+					buf = buf[:runtime.Stack(buf, true)]
+					fmt.Fprintf(os.Stderr, "LEAK DUMP\n%s\nEND LEAK DUMP\n", buf)
+				}
 				return
 			}
 			panic(r)
@@ -220,6 +234,8 @@ func (e *Engine) shard(key []byte, zones uint64) uint64 {
 
 //go:norace
 func (e *Engine) listen(addr string, h http.Handler) error {
+	e.hookMu.Lock()
+	defer e.hookMu.Unlock()
 	if _, ok := e.listeners[addr]; ok {
 		return errors.New("listen tcp " + addr + ": bind: address already in use")
 	}
@@ -229,6 +245,8 @@ func (e *Engine) listen(addr string, h http.Handler) error {
 
 //go:norace
 func (e *Engine) closeListener(addr string, h http.Handler) {
+	e.hookMu.Lock()
+	defer e.hookMu.Unlock()
 	if cur, ok := e.listeners[addr]; ok && cur == h {
 		delete(e.listeners, addr)
 		e.closedAddrs = append(e.closedAddrs, addr)
@@ -237,13 +255,29 @@ func (e *Engine) closeListener(addr string, h http.Handler) {
 
 //go:norace
 func (e *Engine) drainClosedAddrs() []string {
+	e.hookMu.Lock()
+	defer e.hookMu.Unlock()
 	c := e.closedAddrs
 	e.closedAddrs = nil
+	sort.Strings(c)
 	return c
 }
 
 //go:norace
-func (e *Engine) handler(addr string) http.Handler { return e.listeners[addr] }
+func (e *Engine) handler(addr string) http.Handler {
+	e.hookMu.Lock()
+	defer e.hookMu.Unlock()
+	return e.listeners[addr]
+}
+
+//go:norace
+func (e *Engine) clearListeners() {
+	e.hookMu.Lock()
+	defer e.hookMu.Unlock()
+	for k := range e.listeners {
+		delete(e.listeners, k)
+	}
+}
 
 func (e *Engine) dial(addr string, timeout time.Duration) (net.Conn, error) {
 	mode := e.getNet(addr)
@@ -431,9 +465,7 @@ func (e *Engine) teardown() {
 	pikelocation.Reset(nil)
 	pikecache.ResetDispatchers(nil)
 	e.unregisterStores()
-	for k := range e.listeners {
-		delete(e.listeners, k)
-	}
+	e.clearListeners()
 }
 
 // ---------------------------------------------------------------------------------
@@ -524,6 +556,13 @@ func (e *Engine) run() *Outcome {
 	e.hist.EndT = e.nowMs()
 	out := &Outcome{Plan: p, Schedule: e.sched, Hist: e.hist}
 	e.teardown()
+	if os.Getenv("VSIM_NO_DRAIN") == "" {
+		// let the goroutines that only leave on their next tick (health checkers of stopped
+		// upstreams, probes of black-holed servers) see that they were stopped, so that the
+		// bubble ends without blocked goroutines whenever no task was abandoned
+		time.Sleep(11 * time.Second)
+		e.wait()
+	}
 	out.Violations = e.violations
 	out.Hash = e.hist.Hash()
 	return out
